@@ -67,6 +67,26 @@ func (x *res) viol(rule, feature, detail string, witness interface{}) {
 	x.r.Violations = append(x.r.Violations, runner.Violation{Rule: rule, Feature: feature, Detail: detail, Witness: witness})
 }
 
+// merge folds the result of a sub-run (e.g. one goroutine's own res) into x.
+func (x *res) merge(o *res) {
+	x.r.Evals += o.r.Evals
+	x.r.Inconclusive += o.r.Inconclusive
+	x.r.Fingerprints = append(x.r.Fingerprints, o.r.Fingerprints...)
+	for k, v := range o.r.Counters {
+		if k != "violations_observed" {
+			x.r.Counters[k] += v
+		}
+	}
+	for k, vs := range o.r.Sets {
+		for _, v := range vs {
+			x.set(k, v)
+		}
+	}
+	for _, v := range o.r.Violations {
+		x.viol(v.Rule, v.Feature, v.Detail, v.Witness)
+	}
+}
+
 // failureViolation converts a history failure into a violation; the feature tuple is the
 // op kind of the failing step and the phase.
 func (x *res) failureViolation(adapter string, f *mon.Failure, setup interface{}) {
